@@ -2,6 +2,7 @@ package rules
 
 import (
 	"fmt"
+	"go/token"
 	"go/types"
 	"regexp"
 	"sort"
@@ -11,6 +12,7 @@ import (
 
 	"hrverif/internal/absint"
 	"hrverif/internal/core"
+	"hrverif/internal/flow"
 )
 
 // An expansion site is a function that looks a logged food up in the recipe
@@ -55,7 +57,8 @@ func expansionSites(p *core.Program) []*ssa.Function {
 				}
 				// a helper that is handed the logged element by its caller is judged in the caller's context
 				roots := []*ssa.Function{fn}
-				if takesElement(p, fn) {
+				if _, keyIsParam := lk.Index.(*ssa.Parameter); takesElement(p, fn) || (keyIsParam && fn.Parent() == nil) {
+					// … and so is one that is handed just the name to look up (ingredients(name) Elements)
 					roots = contextRoots(p, fn, 2)
 				}
 				for _, r := range roots {
@@ -193,6 +196,18 @@ func collectContributions(c *core.Ctx, rule string, fn *ssa.Function) ([]contrib
 				gs = append(gs, sw+"="+v)
 			}
 		}
+		// filed under the very value the path has settled the name to be equal to (acc.Add(wanted, …) where
+		// e.Name == wanted): that is filing under the name
+		if f := s.Data["filter"]; strings.HasPrefix(name, "other:") && strings.Contains(f, ".Name==") {
+			parts := strings.SplitN(f, "==", 2)
+			key := strings.TrimPrefix(name, "other:")
+			if i := strings.IndexByte(key, '{'); i > 0 {
+				key = key[:i]
+			}
+			if key == parts[1] {
+				name = parts[0]
+			}
+		}
 		ct := contribution{sink: sink, name: name, value: value, found: s.Data["found"], filter: s.Data["filter"], gate: strings.Join(gs, ","), pos: pos}
 		k := ct.String()
 		if !seen[k] {
@@ -244,6 +259,19 @@ func collectContributions(c *core.Ctx, rule string, fn *ssa.Function) ([]contrib
 		for _, sw := range []string{"Totals", "TotalsOnly"} {
 			if strings.HasPrefix(atom, "b(") && (strings.Contains(atom, `c:"`+sw+`")`) || switchLoc(x, atom, sw)) {
 				s.SetData("gate:"+sw, outs[0])
+			}
+		}
+		// a switch bound early into a private field of the reporter, possibly negated (details: !config.TotalsOnly)
+		if strings.HasPrefix(atom, "b(§@") {
+			loc := x.LocOf[strings.TrimSuffix(strings.TrimPrefix(atom, "b(§@"), ")")]
+			if i := strings.LastIndex(loc, "·"); i >= 0 {
+				if al, ok := switchAliases(c.P)[loc[i+len("·"):]]; ok {
+					v := outs[0]
+					if al.inverted {
+						v = map[string]string{"T": "F", "F": "T"}[v]
+					}
+					s.SetData("gate:"+al.sw, v)
+				}
 			}
 		}
 		switch {
@@ -790,4 +818,135 @@ func ruleReporterSelection(c *core.Ctx, rule string, only func(*ssa.Function) bo
 func isStringType(t types.Type) bool {
 	b, ok := t.Underlying().(*types.Basic)
 	return ok && b.Info()&types.IsString != 0
+}
+
+type switchAlias struct {
+	sw       string
+	inverted bool
+}
+
+var switchAliasMemo = map[*core.Program]map[string]switchAlias{}
+
+// switchAliases: boolean fields of the tree's structures into which only the value of a totals switch of the
+// configuration (or its negation) is ever stored: field name -> switch.
+func switchAliases(p *core.Program) map[string]switchAlias {
+	if m, ok := switchAliasMemo[p]; ok {
+		return m
+	}
+	type cand struct {
+		al  switchAlias
+		bad bool
+	}
+	cs := map[string]*cand{}
+	configField := func(v ssa.Value) (string, bool) {
+		switch t := v.(type) {
+		case *ssa.Field:
+			return fieldNameV(t.X.Type(), t.Field), true
+		case *ssa.UnOp:
+			if fa, ok := t.X.(*ssa.FieldAddr); ok && t.Op == token.MUL {
+				return fieldName(fa.X.Type(), fa.Field), true
+			}
+		}
+		return "", false
+	}
+	for _, fn := range p.Funcs {
+		for _, b := range fn.Blocks {
+			for _, in := range b.Instrs {
+				st, ok := in.(*ssa.Store)
+				if !ok {
+					continue
+				}
+				fa, ok := st.Addr.(*ssa.FieldAddr)
+				if !ok {
+					continue
+				}
+				bt, ok := st.Val.Type().Underlying().(*types.Basic)
+				if !ok || bt.Kind() != types.Bool {
+					continue
+				}
+				name := fieldName(fa.X.Type(), fa.Field)
+				if name == "Totals" || name == "TotalsOnly" || name == "" {
+					continue
+				}
+				v, inv := st.Val, false
+				if u, ok := v.(*ssa.UnOp); ok && u.Op == token.NOT {
+					v, inv = u.X, true
+				}
+				src, ok := configField(v)
+				c := cs[name]
+				if c == nil {
+					c = &cand{}
+					cs[name] = c
+				}
+				if !ok || (src != "Totals" && src != "TotalsOnly") {
+					c.bad = true
+					continue
+				}
+				if c.al.sw != "" && (c.al.sw != src || c.al.inverted != inv) {
+					c.bad = true
+				}
+				c.al = switchAlias{src, inv}
+			}
+		}
+	}
+	out := map[string]switchAlias{}
+	for k, c := range cs {
+		if !c.bad && c.al.sw != "" {
+			out[k] = c.al
+		}
+	}
+	switchAliasMemo[p] = out
+	return out
+}
+
+// looseTextTests: predicates and transformations that make a comparison of names something other than equality.
+var looseTextTests = map[string]bool{
+	"strings.HasPrefix": true, "strings.HasSuffix": true, "strings.Contains": true, "strings.EqualFold": true,
+	"strings.ToLower": true, "strings.ToUpper": true, "strings.Title": true, "strings.TrimSpace": true, "strings.Trim": true,
+	"strings.Index": true, "strings.ContainsAny": true, "strings.TrimSuffix": true, "strings.TrimPrefix": true,
+	"regexp.MatchString": true, "(*regexp.Regexp).MatchString": true, "regexp.Compile": true, "regexp.MustCompile": true,
+	"path.Match": true, "path/filepath.Match": true,
+}
+
+// ruleExactElementMatch (C07-R9, shared): the element asked for with --single-element is only ever compared for
+// equality. Wherever a value that derives from Config.SingleElement (value flow: copies in private fields, parameters)
+// is handed to a prefix/substring/case-folding/pattern test, some reports count names that the others keep apart —
+// `fat` would also take `fat/saturated` — so the figures of the reports no longer agree.
+func ruleExactElementMatch(c *core.Ctx, rule string) {
+	cfgT := c.P.LookupType(reporterPkg, "Config")
+	if !requireAnchor(c, rule, "reporter.Config", cfgT != nil) {
+		return
+	}
+	g := buildFlow(c)
+	field := string(flow.FieldNode(cfgT, "SingleElement"))
+	n, bad := 0, 0
+	for _, fn := range c.P.Funcs {
+		for _, b := range fn.Blocks {
+			for _, in := range b.Instrs {
+				call, ok := in.(*ssa.Call)
+				if !ok {
+					continue
+				}
+				cal := core.Callee(&call.Call)
+				if cal == nil || !looseTextTests[cal.String()] {
+					continue
+				}
+				for _, a := range call.Call.Args {
+					if !isStringType(a.Type()) {
+						continue
+					}
+					if !g.Reaches(flow.ValueNode(a), func(nd flow.Node) bool { return string(nd) == field }) {
+						continue
+					}
+					n++
+					bad++
+					c.Violate(rule, core.FuncName(fn), cal.Name(), c.P.Pos(call.Pos()), "the element asked for with --single-element reaches "+cal.String()+": names are matched by something other than equality here (a prefix, a part, another case, a pattern), while the other reports match exactly — a name that is a prefix or a case variant of another is counted together with it in this report only", nil)
+				}
+			}
+		}
+	}
+	if bad == 0 {
+		c.Discharge(rule, "reporters", "exact-match", "-", "the requested element never reaches a prefix, substring, case-folding or pattern test")
+	}
+	_ = n
 }
